@@ -35,9 +35,30 @@ pub fn run_py_entry(args: &[String], stdin: Option<&[u8]>, timeout_s: u64) -> Cl
     run_program("python3-vt", &[script], args, stdin, timeout_s)
 }
 
+thread_local! {
+    /// environment of the next program runs of this thread: extra variables, variables to remove, working directory
+    pub static RUN_ENV: std::cell::RefCell<(Vec<(String, String)>, bool, Option<std::path::PathBuf>)> = std::cell::RefCell::new((Vec::new(), false, None));
+}
+
+pub fn set_run_env(vars: Vec<(String, String)>, minimal: bool, cwd: Option<std::path::PathBuf>) {
+    RUN_ENV.with(|e| *e.borrow_mut() = (vars, minimal, cwd));
+}
+
 pub fn run_program(program: &str, pre: &[String], args: &[String], stdin: Option<&[u8]>, timeout_s: u64) -> CliOut {
     use std::os::unix::process::ExitStatusExt;
     let mut cmd = Command::new(program);
+    let (vars, minimal, cwd) = RUN_ENV.with(|e| e.borrow().clone());
+    if minimal {
+        // a bare environment: only what is needed to start the program
+        let path = std::env::var("PATH").unwrap_or_default();
+        cmd.env_clear().env("PATH", path);
+    }
+    for (k, v) in &vars {
+        cmd.env(k, v);
+    }
+    if let Some(d) = &cwd {
+        cmd.current_dir(d);
+    }
     cmd.args(pre)
         .args(args)
         .env("VERIF_PYDIR", std::env::var("VERIF_PYDIR").unwrap_or_else(|_| format!("{}/.build/py", crate::verif_root())))
